@@ -2,6 +2,7 @@ import TnVerif.Model.Round
 import TnVerif.Lemmas.RankSelect
 import TnVerif.Lemmas.RoundTTBridge
 import TnVerif.Lemmas.OrthSweep
+import TnVerif.Lemmas.Isometry
 import Mathlib.Tactic.IntervalCases
 import TnVerif.Generated
 import Mathlib.Algebra.Order.Field.Basic
@@ -139,12 +140,28 @@ theorem roundTT_end_to_end (thr eps : K) (ms : List (Mode K)) (qrs : List (QRAns
       ≤ eps ^ 2 * boxSum (ms.map (·.n)) (fun is => dense ms is ^ 2) :=
   TN.roundTT_end_to_end thr eps ms qrs svds cur rest hwf hout hlen hqr hrev hok hun
 
+/-- **TT-Tucker tensors**: with column-orthonormal Tucker factors (what `factor_orthogonalize` establishes) the truncation sweep, which
+    touches the cores only, honours the tolerance on the FULL tensor: error and norm of `(⊗U)·core` are those of the core tensor
+    (`Lemmas/Isometry.wprod_gram`: the Tucker operator preserves Frobenius inner products) -/
+theorem roundTT_with_factors (thr eps : K) (ms : List (Mode K)) (as : List (SVDAns K × Nat)) (cur : Mode K) (rest : List (Mode K))
+    (Ls : List (Nat × (Nat → Nat → K)))
+    (hrev : ms.reverse = cur :: rest) (hlo : chainLO rest) (hrl : cur.rl = topRank rest) (hrr : cur.rr = 1)
+    (hok : ansOK thr (budget2 eps cur rest.length) (cur :: rest) as)
+    (hun : uncapped thr (budget2 eps cur rest.length) (cur :: rest) as)
+    (hlen : Ls.length = ms.length) (hcol : ColOrtho Ls (ms.map (·.n))) :
+    boxSum (rowsOf Ls) (fun is => (dense (linAll Ls ms) is
+        - dense (linAll Ls (roundTTsem thr (budget2 eps cur rest.length) ms as)) is) ^ 2)
+      ≤ eps ^ 2 * boxSum (rowsOf Ls) (fun is => dense (linAll Ls ms) is ^ 2) :=
+  TN.roundTT_with_factors thr eps ms as cur rest Ls hrev hlo hrl hrr hok hun hlen hcol
+
 -- NOT YET PROVED (full statements):
---  * the same bound with Tucker factors present (needs: applying column-orthonormal factors mode-wise preserves Frobenius
---    distances — `factor_orthogonalize` establishes the hypothesis), for `algorithm='eig'`, and for `round_tucker`;
+--  * the same bound for `algorithm='eig'` (Gram-matrix path: needs the eigh contract and the 1e-8 substitution) and for
+--    `round_tucker` (per-mode truncations of the factors; same Pythagoras argument on the mode unfoldings);
 --  * the `rmax`-capped clause "error equals the tails" is `roundTT_error_eq` (proved); a bound in terms of the ORIGINAL
 --    tensor's unfolding singular values needs Eckart–Young, absent from Mathlib;
 --  * the absolute-zero special case (`S[0] < 1e-13`) is excluded by `ansOK`; on the real code it is the recorded
---    tiny-norm known finding.
+--    tiny-norm known finding;
+--  * the correspondence replays pure-TT tensors (QR + SVD answers); for TT-Tucker inputs `roundTT_with_factors` applies to
+--    the state after factor orthogonalisation, whose replay (factor QR sign gauge) is not modelled — the oracle covers it.
 
 end TN.C04
